@@ -200,9 +200,11 @@ class Machine:
     def _color_matrix(self) -> None:
         color = self._reg.get_color()
         mat = self._reg.matrix
-        rect = Rect(
-            self._reg.first_row, self._reg.last_row,
-            self._reg.first_column, self._reg.last_column)
+        # Division and interpolating loops produce floats such as 2.0.
+        rect = Rect(*(
+            None if index is None else round(index) for index in (
+                self._reg.first_row, self._reg.last_row,
+                self._reg.first_column, self._reg.last_column)))
         mat.overlay_color(rect, color)
 
     def _color_matrix_light(self) -> None:
